@@ -26,7 +26,9 @@
 #include "celeritas/geo/GeoMaterialParams.hh"
 #include "celeritas/geo/GeoParams.hh"
 #include "celeritas/global/CoreParams.hh"
+#include "celeritas/field/UniformFieldData.hh"
 #include "celeritas/global/alongstep/AlongStepGeneralLinearAction.hh"
+#include "celeritas/global/alongstep/AlongStepUniformMscAction.hh"
 #include "celeritas/io/ImportProcess.hh"
 #include "celeritas/io/detail/ImportDataConverter.hh"
 #include "celeritas/mat/MaterialParams.hh"
@@ -57,6 +59,7 @@ struct ProblemOptions
     double table_scale{1.0};  //!< seed-dependent scaling of all cross sections
     double dedx{2.0};  //!< MeV/cm in the dense material
     size_type max_streams{1};
+    double field_tesla{0};  //!< uniform magnetic field along (1,1,1)/sqrt(3) * value; 0 = linear propagation
     Script* script{nullptr};  //!< scripted physics instead of the EM processes
     double electron_mass{0.5109989461};
 };
@@ -275,9 +278,21 @@ inline void build_problem(Problem& p, ProblemOptions const& o)
     ti.max_events = o.max_events;
     ti.track_order = o.track_order;
     p.init = std::make_shared<TrackInitParams>(ti);
-    auto along = AlongStepGeneralLinearAction::from_params(
-        p.action_reg->next_id(), *p.mats, *p.particles, nullptr, o.fluct);
-    p.action_reg->insert(along);
+    if (o.field_tesla != 0)
+    {
+        UniformFieldParams fp;
+        double const b = o.field_tesla * units::tesla / std::sqrt(3.0);
+        fp.field = {b, b, b};
+        auto along = AlongStepUniformMscAction::from_params(
+            p.action_reg->next_id(), *p.mats, *p.particles, fp, nullptr, o.fluct);
+        p.action_reg->insert(along);
+    }
+    else
+    {
+        auto along = AlongStepGeneralLinearAction::from_params(
+            p.action_reg->next_id(), *p.mats, *p.particles, nullptr, o.fluct);
+        p.action_reg->insert(along);
+    }
     p.inp.geometry = p.geo;
     p.inp.material = p.mats;
     p.inp.geomaterial = p.geomat;
